@@ -221,7 +221,7 @@ let ghost h = ith.index@ as int;
     ensures
         r is Err <==> parse_patch(patch_diff@) is None, // [Da.post.err_iff_unparsable]
         r matches Ok(m) ==> forall|i: int| 0 <= i < parse_patch(patch_diff@).unwrap().len() && !removed_file(#[trigger] parse_patch(patch_diff@).unwrap()[i]) // [Da.post.key_is_the_path_git_meant]
-            ==> m@.contains_key(path_of(strip_once(unquote_spec(parse_patch(patch_diff@).unwrap()[i].target_file@)))),
+            ==> m@.contains_key(path_of_bytes(strip_once_bytes(unquote_bytes_spec(parse_patch(patch_diff@).unwrap()[i].target_file@)))),
         // KF3: no carve-out (difflines.rs: `kf3_carve_out(files) ==> ...`)
         r matches Ok(m) ==> only_deleted_files_are_skipped(parse_patch(patch_diff@).unwrap(), m@), // [Da.post.only_deleted_files_are_skipped]
         r matches Ok(m) ==> forall|key: PathBuf| #[trigger] m@.contains_key(key) // [Da.post.removed_files_contribute_nothing]
@@ -288,9 +288,8 @@ None => { break; } } }
         assert forall|key: PathBuf, j: int| last_file_with_key(files, n, key, j) implies last_file_with_key(files, files.len() as int, key, j) by {}
         assert forall|key: PathBuf, j: int| last_file_with_key(files, files.len() as int, key, j) implies last_file_with_key(files, n, key, j) by {}
     }
-//@chain rule=E13 find=<<.into()>> to=verif_str_into_pathbuf
-//@chain rule=E13 find=<<.strip_prefix(>> to=verif_diff_strip_prefix recvprefix=<<&>> optional=1
-//@chain rule=E13 find=<<.trim_start_matches(>> to=verif_diff_trim_start_matches recvprefix=<<&>> optional=1
+//@edit rule=E13 find=<<$a.strip_prefix(b"b/").unwrap_or(&$a)>>
+verif_bytes_unwrap_or(verif_bytes_strip_b_slash(&$a), &$a)
 //@end
 
 } // verus!
